@@ -199,7 +199,7 @@ func runC16(c *Ctx) {
 	}
 
 	// ---- R2 ----
-	c.c16StreamChain()
+	c.streamChain("R2")
 
 	// ---- R3 ----
 	rm := c.P.Func("diam", "ReadMessage")
@@ -273,8 +273,9 @@ func derivesFromAnswer(v ssa.Value, call *ssa.Call) bool {
 	return false
 }
 
-// c16StreamChain: R2.
-func (c *Ctx) c16StreamChain() {
+// streamChain: the stream number travels unchanged with the bytes along the write chain. Shared
+// clause of C16 (R2) and C19 (R4).
+func (c *Ctx) streamChain(rule string) {
 	r := c.R
 	streamParam := func(sig *types.Signature) int {
 		for i := 0; i < sig.Params().Len(); i++ {
@@ -341,7 +342,7 @@ func (c *Ctx) c16StreamChain() {
 			} else if p, ok := a.(*ssa.Parameter); ok && paramIndex(f, p) == own {
 				good = true
 			}
-			r.Check(good, "R2", key, c.pos(ci), "the callee's stream parameter receives the caller's stream value unchanged", "the stream number is not passed through unchanged ("+short(args[ai].String(), 50)+"): the message is written to another stream than the one requested")
+			r.Check(good, rule, key, c.pos(ci), "the callee's stream parameter receives the caller's stream value unchanged", "the stream number is not passed through unchanged ("+short(args[ai].String(), 50)+"): the message is written to another stream than the one requested")
 		}
 		// bytes and stream travel together: a call that hands the message bytes on without the stream
 		// is only allowed on the edge where the transport is not multistream
@@ -410,7 +411,7 @@ func (c *Ctx) c16StreamChain() {
 							}
 						}
 					}
-					r.Check(notMulti, "R2", key, c.pos(ci), "bytes are handed on without a stream only on the edge where the transport is not multistream", "on a multistream transport the message bytes are handed to "+calleeLabel(ci)+" without the requested stream (the stream is selected through shared connection state instead): concurrent answers can leave on each other's stream")
+					r.Check(notMulti, rule, key, c.pos(ci), "bytes are handed on without a stream only on the edge where the transport is not multistream", "on a multistream transport the message bytes are handed to "+calleeLabel(ci)+" without the requested stream (the stream is selected through shared connection state instead): concurrent answers can leave on each other's stream")
 				}
 			}
 		}
@@ -426,11 +427,11 @@ func (c *Ctx) c16StreamChain() {
 			}
 			n++
 			p, isP := flow.Peel(st.Val).(*ssa.Parameter)
-			r.Check(isP && paramIndex(f, p) == own, "R2", fname(f)+":SndRcvInfo.Stream", c.pos(st), "the SCTP send info carries the requested stream (conversion only)", "the SCTP send info's stream is not the requested stream")
+			r.Check(isP && paramIndex(f, p) == own, rule, fname(f)+":SndRcvInfo.Stream", c.pos(st), "the SCTP send info carries the requested stream (conversion only)", "the SCTP send info's stream is not the requested stream")
 		})
 	}
 	if n == 0 {
-		r.Undecided("R2", "role:stream-chain", "-", "no stream-carrying call found on the write path")
+		r.Undecided(rule, "role:stream-chain", "-", "no stream-carrying call found on the write path")
 	}
 }
 
